@@ -173,3 +173,12 @@ directive @fq(x: Int) on FIELD | QUERY
 directive @typeSystemOnly on OBJECT | FIELD_DEFINITION
 type Mutation { a: Int }
 ";
+
+/// fields with arguments on an object, an interface and the root; a directive with arguments
+pub const ARGS: &str = "
+interface J { g(i: Int, r: Int!): Int }
+type W implements J { g(i: Int, r: Int!): Int  w: W  j: J }
+type Query { f(i: Int, r: Int!, d: Int! = 1): Int  w: W  j: J  plain: Int }
+directive @dir(x: Int, y: Int!) repeatable on QUERY | FIELD | FRAGMENT_SPREAD | INLINE_FRAGMENT | FRAGMENT_DEFINITION
+directive @noargs on FIELD
+";
